@@ -111,7 +111,7 @@ def run(ck: Check):
     obligations, discharged, axioms = 0, 0, []
     if os.path.exists(os.path.join(ROOT, "coq", "Properties", "C01.v")):
         obligations, discharged, axioms = standard_proof_step(ck)
-    n_models = ck.n(60, 1500)
+    n_models = ck.n(200, 3000)
     jobs, metas = [], []
     for k in range(n_models):
         slices = r.choice([("F1",), ("F1",), ("F1", "F2"), ("F1", "F2", "F3"), ("F1", "F4"), ("F1", "F2", "F3", "F4")])
